@@ -9,6 +9,18 @@
 (*       allpols    1: TLC enumerates every policy over the weight menu                 *)
 (*                  {0,1/3,1/2,2/3,1} on the available actions; 0: the policies listed  *)
 (*                  in pols (numerators over QD = 6, one row per state)                 *)
+(*       tinys      per listed policy: flags of RARE entries.  A rare entry stands for a  *)
+(*                  weight eps > 0 of unknown, arbitrarily small size (the harness uses  *)
+(*                  2^-30); pols holds a surrogate row with the same support.  What      *)
+(*                  depends only on the support (the -infinity set of the values, the    *)
+(*                  +infinity set of the occupancies) is decided exactly; finite entries *)
+(*                  are exact only where no rare entry can influence them (VExact,      *)
+(*                  QExact, OccExact, InitExact below), and only those are emitted as    *)
+(*                  binding.                                                             *)
+(*       hist, sp, ap   hist = 1: the same policy OBJECT is evaluated a second time, on  *)
+(*                  a second presentation of the MDP whose state list / action list are  *)
+(*                  permuted by sp / ap (round 2 of the machine, started by Reuse with   *)
+(*                  the stale policy matrix still in pm).                                *)
 (* (O) oracle: V by MDP!PolicyValue (Cramer on the transient system + chain classes),   *)
 (*     Q by MDP!QFromV, occupancy by Cramer on the *transposed* system                  *)
 (*     (I - gamma P^T) x = p0 over the transient states, +infinity on recurrent states  *)
@@ -30,8 +42,8 @@ QD   == 6
 Menu == {0, 2, 3, 4, 6}
 NONE == <<>>
 
-VARIABLES iid, w, orc, phase, pm, sr, mp, acc, cls, SR, V, Q, occ, ival
-vars == <<iid, w, orc, phase, pm, sr, mp, acc, cls, SR, V, Q, occ, ival>>
+VARIABLES iid, w, tn, round, orc, phase, pm, sr, mp, acc, cls, SR, V, Q, occ, ival
+vars == <<iid, w, tn, round, orc, phase, pm, sr, mp, acc, cls, SR, V, Q, occ, ival>>
 
 M == Batch[iid]
 
@@ -41,9 +53,50 @@ RowsAt(m, s) == {r \in [Ac(m) -> Menu] : /\ SumTo(r, m.K) = QD
 AllRows(m) == UNION {RowsAt(m, s) : s \in NonAbs(m)}
 AllPols(m) == {p \in [NonAbs(m) -> AllRows(m)] : \A s \in NonAbs(m) : p[s] \in RowsAt(m, s)}
 PolOfSeq(m, q) == [s \in NonAbs(m) |-> [a \in Ac(m) |-> q[s][a]]]
-PolChoices(m) == IF m.allpols = 1 THEN AllPols(m) ELSE {PolOfSeq(m, m.pols[i]) : i \in 1..Len(m.pols)}
+ZeroFlags(m) == [s \in NonAbs(m) |-> [a \in Ac(m) |-> 0]]
+\* pairs <<policy, rare flags>>
+PolChoices(m) == (IF m.allpols = 1 THEN {<<p, ZeroFlags(m)>> : p \in AllPols(m)} ELSE {})
+                 \cup {<<PolOfSeq(m, m.pols[i]), PolOfSeq(m, m.tinys[i])>> : i \in 1..Len(m.pols)}
 PolicyOK(m, ww) == \A s \in NonAbs(m) : /\ SumTo(ww[s], m.K) = QD
                                          /\ \A a \in Ac(m) : ww[s][a] >= 0 /\ (ww[s][a] > 0 => a \in Avail(m, s))
+\* rare flags sit on supported entries and leave an ordinary supported entry in the row
+FlagsOK(m, ww, t) == \A s \in NonAbs(m) : /\ \A a \in Ac(m) : t[s][a] \in {0, 1} /\ (t[s][a] = 1 => ww[s][a] > 0)
+                                            /\ \E b \in Ac(m) : ww[s][b] > 0 /\ t[s][b] = 0
+\* ---- rare weights: what can depend on their size
+RareStates(m, t) == {s \in NonAbs(m) : \E a \in Ac(m) : t[s][a] = 1}
+\* states that reach (in >= 0 steps of the policy) a state with a rare entry
+Infl(m, ww, t) == LET rs == RareStates(m, t) IN
+                  {s \in NonAbs(m) : s \in rs \/ ReachPi(m, ww, s) \cap rs # {}}
+VExact(m, ww, t)   == St(m) \ Infl(m, ww, t)
+QExact(m, ww, t)   == LET inf == Infl(m, ww, t) IN
+                      [s \in St(m) |-> [a \in Ac(m) |->
+                         IF a \in Avail(m, s) /\ \E x \in Succ(m, s, a) : x \in inf /\ x \notin ExplAbs(m) THEN 0 ELSE 1]]
+\* occupancy of x: exact unless a rare state lies on a way to x (or is x)
+OccExact(m, ww, t) == LET rs == RareStates(m, t) \ AbsAll(m)
+                          mm == [m EXCEPT !.abs = [s \in St(m) |-> IF s \in AbsAll(m) THEN 1 ELSE 0]] IN
+                      {x \in St(m) : x \notin rs /\ \A s \in rs : x \notin ReachPi(mm, ww, s)}
+InitExact(m, ww, t) == InitSupp(m) \subseteq VExact(m, ww, t)
+\* another surrogate with the same support: rows of rare states get weights 1,5 / 1,2,3 in index order
+AltRow(m, r) == LET sup == {a \in Ac(m) : r[a] > 0}
+                    n   == Cardinality(sup)
+                    rk(a) == Cardinality({b \in sup : b < a}) IN
+                [a \in Ac(m) |-> IF a \notin sup THEN 0
+                                  ELSE IF n = 1 THEN QD
+                                  ELSE IF n = 2 THEN (IF rk(a) = 0 THEN 1 ELSE 5)
+                                  ELSE rk(a) + 1]
+AltPolicy(m, ww, t) == [s \in NonAbs(m) |-> IF s \in RareStates(m, t) THEN AltRow(m, ww[s]) ELSE ww[s]]
+\* ---- second presentation of the instance: state i is the old sp[i], action j the old ap[j]
+Present(m, sp, ap) ==
+  TLCEval([m EXCEPT
+     !.abs   = [i \in St(m) |-> m.abs[sp[i]]],
+     !.avail = [i \in St(m) |-> [j \in Ac(m) |-> m.avail[sp[i]][ap[j]]]],
+     !.P     = [i \in St(m) |-> [j \in Ac(m) |-> [k \in St(m) |-> m.P[sp[i]][ap[j]][sp[k]]]]],
+     !.R     = [i \in St(m) |-> [j \in Ac(m) |-> [k \in St(m) |-> m.R[sp[i]][ap[j]][sp[k]]]]],
+     !.p0    = [i \in St(m) |-> m.p0[sp[i]]],
+     !.gw    = [i \in St(m) |-> [j \in Ac(m) |-> m.gw[sp[i]][ap[j]]]]])
+PresentW(m, ww, sp, ap) ==
+  TLCEval([i \in {x \in St(m) : m.abs[sp[x]] = 0} |-> [j \in Ac(m) |-> ww[sp[i]][ap[j]]]])
+IsPerm(f, n) == /\ Len(f) = n /\ {f[i] : i \in 1..n} = 1..n
 \* the tabular view of the instance: implicitly absorbing states count as absorbing
 TM(m) == [m EXCEPT !.abs = [s \in St(m) |-> IF s \in AbsAll(m) THEN 1 ELSE 0]]
 Gamma(m) == Norm(m.GN, m.GD)
@@ -137,89 +190,108 @@ Dot0(m, v) ==
   ELSE RSumTo([s \in St(m) |-> IF m.p0[s] = 0 THEN <<0, 1>> ELSE RMul(Norm(m.p0[s], m.ID), v[s])], m.N)
 
 \* ------------------------------------------------------------------ machine
+\* the MDP / policy as presented to the current evaluation (round 2: permuted lists)
+CM == IF round = 1 THEN M ELSE Present(M, M.sp, M.ap)
+CW == IF round = 1 THEN w ELSE PresentW(M, w, M.sp, M.ap)
+
 Init ==
   /\ iid \in 1..Len(Batch)
-  /\ w \in PolChoices(Batch[iid])
+  /\ \E pc \in PolChoices(Batch[iid]) : w = pc[1] /\ tn = pc[2]
+  /\ round = 1
   /\ orc = NONE
   /\ phase = "init"
   /\ pm = NONE /\ sr = NONE /\ mp = NONE /\ acc = NONE /\ cls = NONE /\ SR = NONE
   /\ V = NONE /\ Q = NONE /\ occ = NONE /\ ival = NONE
 
 Step(from, to) == phase = from /\ phase' = to
+Fixed == UNCHANGED <<iid, w, tn, round>>
 
 \* the ground truth of the pair (kept out of Init: TLC evaluates initial states in a single thread)
 Ground       == Step("init", "start") /\ orc' = Oracle(M, w)
-                /\ UNCHANGED <<iid, w, pm, sr, mp, acc, cls, SR, V, Q, occ, ival>>
-\* policy_matrix = self[mdp.state_list,][:, mdp.action_list]   (also Policy.to_tabular)
-Tabulate     == Step("start", "policy") /\ pm' = Tabulated(M, w)
-                /\ UNCHANGED <<iid, w, orc, sr, mp, acc, cls, SR, V, Q, occ, ival>>
+                /\ Fixed /\ UNCHANGED <<pm, sr, mp, acc, cls, SR, V, Q, occ, ival>>
+\* policy_matrix = self._policy_matrix_on(mdp): rows in the order of mdp.state_list, columns in the
+\* order of mdp.action_list, recomputed for the MDP at hand (also Policy.to_tabular)
+Tabulate     == Step("start", "policy") /\ pm' = Tabulated(CM, CW)
+                /\ Fixed /\ UNCHANGED <<orc, sr, mp, acc, cls, SR, V, Q, occ, ival>>
 \* state_rewards = einsum("sa,sa->s", policy_matrix, state_action_reward_matrix)
-StateRewards == Step("policy", "rewards") /\ sr' = RawRewards(M, pm)
-                /\ UNCHANGED <<iid, w, orc, pm, mp, acc, cls, SR, V, Q, occ, ival>>
+StateRewards == Step("policy", "rewards") /\ sr' = RawRewards(CM, pm)
+                /\ Fixed /\ UNCHANGED <<orc, pm, mp, acc, cls, SR, V, Q, occ, ival>>
 \* state_rewards[absorbing_state_vec] = 0
-MaskRewards  == Step("rewards", "rewards0") /\ sr' = MaskVec(M, sr, AbsAll(M))
-                /\ UNCHANGED <<iid, w, orc, pm, mp, acc, cls, SR, V, Q, occ, ival>>
+MaskRewards  == Step("rewards", "rewards0") /\ sr' = MaskVec(CM, sr, AbsAll(CM))
+                /\ Fixed /\ UNCHANGED <<orc, pm, mp, acc, cls, SR, V, Q, occ, ival>>
 \* markov_process = einsum("san,sa->sn", transition_matrix, policy_matrix)
-Chain        == Step("rewards0", "chain") /\ mp' = RawChain(M, pm)
-                /\ UNCHANGED <<iid, w, orc, pm, sr, acc, cls, SR, V, Q, occ, ival>>
+Chain        == Step("rewards0", "chain") /\ mp' = RawChain(CM, pm)
+                /\ Fixed /\ UNCHANGED <<orc, pm, sr, acc, cls, SR, V, Q, occ, ival>>
 \* markov_process[absorbing_state_vec, :] = 0
-MaskChain    == Step("chain", "chain0") /\ mp' = MaskRows(M, mp, AbsAll(M))
-                /\ UNCHANGED <<iid, w, orc, pm, sr, acc, cls, SR, V, Q, occ, ival>>
+MaskChain    == Step("chain", "chain0") /\ mp' = MaskRows(CM, mp, AbsAll(CM))
+                /\ Fixed /\ UNCHANGED <<orc, pm, sr, acc, cls, SR, V, Q, occ, ival>>
 \* undiscounted only: accessible = floyd_warshall(markov_process > 0) < inf
-Access       == ~Discounted(M) /\ Step("chain0", "access") /\ acc' = Accessible(M, mp)
-                /\ UNCHANGED <<iid, w, orc, pm, sr, mp, cls, SR, V, Q, occ, ival>>
-\* transient / recurrent / negative recurrent / accessible sets
-Classes      == Step("access", "classes") /\ cls' = ClassesOf(M, mp, sr, acc)
-                /\ UNCHANGED <<iid, w, orc, pm, sr, mp, acc, SR, V, Q, occ, ival>>
+Access       == ~Discounted(M) /\ Step("chain0", "access") /\ acc' = Accessible(CM, mp)
+                /\ Fixed /\ UNCHANGED <<orc, pm, sr, mp, cls, SR, V, Q, occ, ival>>
+\* transient / recurrent / negative recurrent / accessible sets (a row sum that is 1 up to rounding is 1)
+Classes      == Step("access", "classes") /\ cls' = ClassesOf(CM, mp, sr, acc)
+                /\ Fixed /\ UNCHANGED <<orc, pm, sr, mp, acc, SR, V, Q, occ, ival>>
 \* markov_process[recurrent_states] = 0
-ZeroRecurrent == Step("classes", "chain1") /\ mp' = MaskRows(M, mp, cls.rec)
-                /\ UNCHANGED <<iid, w, orc, pm, sr, acc, cls, SR, V, Q, occ, ival>>
+ZeroRecurrent == Step("classes", "chain1") /\ mp' = MaskRows(CM, mp, cls.rec)
+                /\ Fixed /\ UNCHANGED <<orc, pm, sr, acc, cls, SR, V, Q, occ, ival>>
 \* successor_representation = inv(eye - gamma * markov_process)
 Invert ==
-  /\ \/ Discounted(M) /\ Step("chain0", "inverse") /\ SR' = Inverse(M, mp, St(M) \ AbsAll(M))
-     \/ Step("chain1", "inverse") /\ SR' = Inverse(M, mp, St(M) \ (AbsAll(M) \cup cls.rec))
-  /\ UNCHANGED <<iid, w, orc, pm, sr, mp, acc, cls, V, Q, occ, ival>>
+  /\ \/ Discounted(M) /\ Step("chain0", "inverse") /\ SR' = Inverse(CM, mp, St(CM) \ AbsAll(CM))
+     \/ Step("chain1", "inverse") /\ SR' = Inverse(CM, mp, St(CM) \ (AbsAll(CM) \cup cls.rec))
+  /\ Fixed /\ UNCHANGED <<orc, pm, sr, mp, acc, cls, V, Q, occ, ival>>
 \* state_value = einsum("sz,z->s", successor_representation, state_rewards)
-StateValue   == Step("inverse", "value") /\ V' = MatVec(M, SR, sr)
-                /\ UNCHANGED <<iid, w, orc, pm, sr, mp, acc, cls, SR, Q, occ, ival>>
+StateValue   == Step("inverse", "value") /\ V' = MatVec(CM, SR, sr)
+                /\ Fixed /\ UNCHANGED <<orc, pm, sr, mp, acc, cls, SR, Q, occ, ival>>
 \* undiscounted only: state_value[negative_recurrent_accessible_states] = -inf
 MarkNegInf   == ~Discounted(M) /\ Step("value", "value1")
                 /\ V' = [s \in St(M) |-> IF s \in cls.negacc THEN NEG ELSE V[s]]
-                /\ UNCHANGED <<iid, w, orc, pm, sr, mp, acc, cls, SR, Q, occ, ival>>
+                /\ Fixed /\ UNCHANGED <<orc, pm, sr, mp, acc, cls, SR, Q, occ, ival>>
 \* action_value = state_action_reward_matrix + log(action_matrix) + gamma * transition_matrix . state_value
 ActionValue ==
   /\ \/ Discounted(M) /\ Step("value", "qvalue")
      \/ Step("value1", "qvalue")
-  /\ Q' = QTab(M, V)
-  /\ UNCHANGED <<iid, w, orc, pm, sr, mp, acc, cls, SR, V, occ, ival>>
+  /\ Q' = QTab(CM, V)
+  /\ Fixed /\ UNCHANGED <<orc, pm, sr, mp, acc, cls, SR, V, occ, ival>>
 \* state_occupancy = einsum("sz,s->z", successor_representation, initial_state_vec)
-Occupancy    == Step("qvalue", "occ") /\ occ' = VecMat(M, SR)
-                /\ UNCHANGED <<iid, w, orc, pm, sr, mp, acc, cls, SR, V, Q, ival>>
+Occupancy    == Step("qvalue", "occ") /\ occ' = VecMat(CM, SR)
+                /\ Fixed /\ UNCHANGED <<orc, pm, sr, mp, acc, cls, SR, V, Q, ival>>
 \* undiscounted only: state_occupancy[initial_accessible_recurrent_states] = inf
 MarkPosInf   == ~Discounted(M) /\ Step("occ", "occ1")
                 /\ occ' = [s \in St(M) |-> IF s \in cls.initrec THEN POS ELSE occ[s]]
-                /\ UNCHANGED <<iid, w, orc, pm, sr, mp, acc, cls, SR, V, Q, ival>>
+                /\ Fixed /\ UNCHANGED <<orc, pm, sr, mp, acc, cls, SR, V, Q, ival>>
 \* initial_value = state_value . initial_state_vec   (0 * -inf := 0 when undiscounted)
 InitialVal ==
   /\ \/ Discounted(M) /\ Step("occ", "done")
      \/ Step("occ1", "done")
-  /\ ival' = Dot0(M, V)
-  /\ UNCHANGED <<iid, w, orc, pm, sr, mp, acc, cls, SR, V, Q, occ>>
+  /\ ival' = Dot0(CM, V)
+  /\ Fixed /\ UNCHANGED <<orc, pm, sr, mp, acc, cls, SR, V, Q, occ>>
+\* the same policy object is handed a second MDP of the same shape with permuted lists; whatever the
+\* object remembers from the first evaluation (here: pm) is still there and must not be used
+Reuse ==
+  /\ phase = "done" /\ round = 1 /\ M.hist = 1
+  /\ round' = 2 /\ phase' = "start"
+  /\ sr' = NONE /\ mp' = NONE /\ acc' = NONE /\ cls' = NONE /\ SR' = NONE
+  /\ V' = NONE /\ Q' = NONE /\ occ' = NONE /\ ival' = NONE
+  /\ UNCHANGED <<iid, w, tn, orc, pm>>
 
 \* the final state stutters; every other state must have a successor (the configuration checks deadlock,
-\* so a behaviour that stops before "done" is reported by TLC)
-Finished == phase = "done" /\ UNCHANGED vars
+\* so a behaviour that stops before the last "done" is reported by TLC)
+Finished == phase = "done" /\ (round = 2 \/ M.hist = 0) /\ UNCHANGED vars
 Next == \/ Ground \/ Tabulate \/ StateRewards \/ MaskRewards \/ Chain \/ MaskChain \/ Access \/ Classes
         \/ ZeroRecurrent \/ Invert \/ StateValue \/ MarkNegInf \/ ActionValue \/ Occupancy
-        \/ MarkPosInf \/ InitialVal \/ Finished
+        \/ MarkPosInf \/ InitialVal \/ Reuse \/ Finished
 Spec == Init /\ [][Next]_vars
 
 \* ------------------------------------------------------------------ emission (pipeline A)
 WOut(m, ww) == [s \in St(m) |-> [a \in Ac(m) |-> IF s \in NonAbs(m) THEN ww[s][a] ELSE 0]]
 SeqSet(S, n) == SeqOfSet(S, n)
 Emit ==
-  phase = "done" =>
-    PrintT(ToJson([iid |-> iid, w |-> WOut(M, w),
+  (phase = "done" /\ round = 1) =>
+    PrintT(ToJson([iid |-> iid, w |-> WOut(M, w), tn |-> WOut(M, tn),
+                   \* which finite entries bind the code (all of them unless the policy has rare entries)
+                   vexact |-> SeqSet(VExact(M, w, tn), M.N), qexact |-> QExact(M, w, tn),
+                   oexact |-> SeqSet(OccExact(M, w, tn), M.N),
+                   iexact |-> IF InitExact(M, w, tn) THEN 1 ELSE 0,
                    v |-> orc.v, q |-> orc.q, occ |-> orc.occ, init |-> orc.init,
                    mq |-> Q,                                   \* machine's action values (also absorbing rows)
                    absall |-> SeqSet(AbsAll(M), M.N), implabs |-> SeqSet(ImplAbs(M), M.N),
@@ -227,7 +299,7 @@ Emit ==
                    negacc |-> IF Discounted(M) THEN <<>> ELSE SeqSet(cls.negacc, M.N)]))
 
 \* ------------------------------------------------------------------ (P) design invariants
-Done == phase = "done"
+Done == phase = "done" /\ round = 1
 
 \* (P1) the implementation-shaped machine ends in the oracle's values (two independent derivations)
 MachineMatchesOracle ==
@@ -291,8 +363,36 @@ Duality ==
 InstanceOK == phase = "init" =>
   /\ WellFormed(M)
   /\ PolicyOK(M, w)
+  /\ FlagsOK(M, w, tn)
+  /\ IsPerm(M.sp, M.N) /\ IsPerm(M.ap, M.K)
   /\ DeadEnd(M) = {}
   /\ Discounted(M) \/ \A s \in St(M) : \A a \in Avail(M, s) : \A t \in St(M) : M.P[s][a][t] > 0 => M.R[s][a][t] <= 0
 
 \* (P7) termination is checked by TLC's deadlock detection (see Finished)
+
+\* (P8) rare weights: the -infinity / +infinity sets depend on the support only, and the entries
+\*      declared exact do not depend on the size of the rare weights (another surrogate, same answer)
+RareWeightsIrrelevantWhereExact ==
+  (Done /\ RareStates(M, tn) # {}) =>
+    LET alt == AltPolicy(M, w, tn)
+        va  == PolicyValue(M, alt, QD)
+        oa  == OccOracle(M, alt)
+        qx  == QExact(M, w, tn)
+    IN /\ \A s \in St(M) : (va[s] = NEG) <=> (orc.v[s] = NEG)
+       /\ \A s \in St(M) : (oa[s] = POS) <=> (orc.occ[s] = POS)
+       /\ \A s \in VExact(M, w, tn) : va[s] = orc.v[s]
+       /\ \A s \in OccExact(M, w, tn) : oa[s] = orc.occ[s]
+       /\ \A s \in NonAbs(M) : \A a \in Ac(M) :
+             /\ (QFromV(M, va, s, a) = NEG) <=> (orc.q[s][a] = NEG)
+             /\ qx[s][a] = 1 => QFromV(M, va, s, a) = orc.q[s][a]
+       /\ InitExact(M, w, tn) => InitialValue(M, va) = orc.init
+       /\ (InitialValue(M, va) = NEG) <=> (orc.init = NEG)
+
+\* (P9) history independence: the second evaluation by the same policy object, on the permuted
+\*      presentation, ends in the (permuted) oracle values as a fresh evaluation does
+ReuseMatchesFresh ==
+  (phase = "done" /\ round = 2) =>
+    /\ \A i \in St(M) : V[i] = orc.v[M.sp[i]] /\ occ[i] = orc.occ[M.sp[i]]
+    /\ ival = orc.init
+    /\ \A i \in St(M) : M.abs[M.sp[i]] = 0 => \A j \in Ac(M) : Q[i][j] = orc.q[M.sp[i]][M.ap[j]]
 =============================================================================
